@@ -64,6 +64,21 @@ def prop(case, rec):
     opt = Optimizer(max_length=4)
     N = len(r.passes[0])
     per_level = Counter(find_omen_level(r.omen_trainer, p) for p in r.passes[2])
+    # the probability relation needs no enumeration: it is checked for EVERY listed level against the saved keyspace
+    unparseable = per_level.get(-1, 0)
+    for L in sorted(saved_ks):
+        if saved_ks[L] == 0:
+            if L in saved_prob:
+                raise Violation('omen_prob', f'level {L} has keyspace 0 but is listed in pcfg_omen_prob.txt', dict(case, levels=[L]))
+            continue
+        want = (per_level[L] / N) / saved_ks[L]
+        if L not in saved_prob:
+            raise Violation('omen_prob', f'level {L} (keyspace {saved_ks[L]}) is missing from pcfg_omen_prob.txt', dict(case, levels=[L]))
+        if abs(saved_prob[L] - want) > 4 * 2.0 ** -52 * max(want, 1e-300):
+            raise Violation('omen_prob', f'level {L}: saved probability {saved_prob[L]!r}, expected ({per_level[L]}/{N})/{saved_ks[L]} = {want!r} '
+                            f'({unparseable} training passwords have no OMEN level)', dict(case, levels=[L]))
+    if unparseable:
+        rec.cls('list_has_passwords_without_omen_level')
     for L in sorted(saved_ks):
         if L > case.get('max_level', 18):
             rec.skip('level_above_quick_tier_bound')
